@@ -56,6 +56,9 @@ def rand_transcript(r, idx):
         utr = [exons[0]]
         lines.append(gen_db.gff_line("chr1", "UTR", exons[0][0], exons[0][1], strand,
                                      [("ID", ["%su" % tid]), ("Parent", [tid])]))
+    head, tail = lines[:1], lines[1:]
+    r.shuffle(tail)                              # children in arbitrary file order (e.g. transcription order on '-')
+    lines = head + tail
     return lines, {"id": tid, "start": tstart, "end": tend, "strand": strand, "exons": exons, "cds": cds, "utr": utr,
                    "name": "N" + tid if name else None, "score": score}
 
